@@ -25,9 +25,9 @@ type rtCase struct {
 
 func rtCatalogue(tier string) []rtCase {
 	var r []rtCase
-	logNs := []int{4, 6}
+	logNs := []int{4, 5, 6} // 5: odd log N (the conjugate-invariant ring then lives in an even-log standard ring and vice versa)
 	if tier == "thorough" {
-		logNs = []int{4, 5, 6, 9}
+		logNs = []int{4, 5, 6, 7, 9}
 	}
 	dists := []struct {
 		name   string
@@ -54,6 +54,9 @@ func rtCatalogue(tier string) []rtCase {
 					}
 					tag := fmt.Sprintf("N%d/%s/q%dp%d/%s", logN, rtName(rt), shape[0], shape[1], d.name)
 					r = append(r, rtCase{"rlwe/" + tag, lit{sch: sRLWE, rl: base}})
+					if di == 0 {
+						r = append(r, rtCase{"rlwe-nontt/" + tag, lit{sch: sRLWE, rl: base, noNTT: true}})
+					}
 					r = append(r, rtCase{"ckks20/" + tag, lit{sch: sCKKS, rl: base, logScale: 20}})
 					if shape[0] >= 2 {
 						r = append(r, rtCase{"ckks80/" + tag, lit{sch: sCKKS, rl: base, logScale: 80}})
@@ -86,18 +89,26 @@ func roundTripScenario(k rtCase) engine.Scenario {
 			panic("harness: catalogue literal rejected: " + err.Error())
 		}
 		c.Cover("roundtrip", k.l.sch.String())
+		if k.l.noNTT {
+			c.Cover("roundtrip", "NTTFlag=false")
+		}
+		// the catalogue's chain shapes (no P, #P not dividing #Q, mixed prime sizes, odd log N, NTTFlag=false) also go
+		// through the arithmetic oracles of smoke.go
 		switch p := out.(type) {
 		case rlwe.Parameters:
 			rtRLWE(c, name, k.l, p)
 			derivedRLWE(c, name, p)
+			smokeRLWE(c, "roundtrip-smoke", name, p)
 		case bgv.Parameters:
 			rtBGV(c, name, k.l, p)
 			derivedRLWE(c, name, p.Parameters)
 			derivedBGV(c, name, p)
+			smokeBGV(c, "roundtrip-smoke", name, p)
 		case ckks.Parameters:
 			rtCKKS(c, name, k.l, p)
 			derivedRLWE(c, name, p.Parameters)
 			derivedCKKS(c, name, p)
+			smokeCKKS(c, "roundtrip-smoke", name, p)
 		}
 		c.Outcome(name)
 	}}
@@ -148,7 +159,7 @@ func runCodec(c *engine.Chooser, tag string, k codec) {
 
 func rtRLWE(c *engine.Chooser, tag string, l lit, p rlwe.Parameters) {
 	user := l.rl
-	user.NTTFlag = true
+	user.NTTFlag = !l.noNTT
 	sch := "rlwe"
 	if user.LogNthRoot != 0 {
 		// input class of the defect "rlwe.ParametersLiteral.UnmarshalJSON has no LogNthRoot field" (FINDINGS.md)
